@@ -908,7 +908,7 @@ def call_oracle(case):
         return False, "argcount"
     s = ("tuple", tuple(params) + ((ret,) if ann is not None else ()))
     t = ("tuple", tuple(args) + ((ann,) if ann is not None else ()))
-    r = ref_unify(s, t, {}, linf=lambda x: call_cd(x) == (False, False))
+    r = ref_unify(s, t, {}, linf=lambda x: not call_cd(x)[0])
     if r["result"] == "ambiguous":
         return None, "ambiguous"
     if r["result"] == "fail":
